@@ -185,6 +185,24 @@ def corrupt(rng, frame, mode=None):
         elif mode == "d3":
             for _ in range(rng.randint(1, 3)):
                 g[rng.randint(3, n - 1)] = 0xD3
+        elif mode == "field":
+            # whole fields forced to an extreme: the 12 type bits all clear / all set, the first payload bytes or
+            # the whole payload zeroed or set (a dropout or a stuck line), the CRC zeroed
+            k = rng.choice(["type0", "type0", "typeF", "head0", "headF", "all0", "allF", "crc0"])
+            if k == "type0" and n >= 8:
+                g[3] = 0
+                g[4] &= 0x0F
+            elif k == "typeF" and n >= 8:
+                g[3] = 0xFF
+                g[4] |= 0xF0
+            elif k in ("head0", "headF"):
+                for j in range(3, min(n - 3, 3 + rng.randint(2, 4))):
+                    g[j] = 0 if k == "head0" else 0xFF
+            elif k in ("all0", "allF"):
+                for j in range(3, n - 3):
+                    g[j] = 0 if k == "all0" else 0xFF
+            else:
+                g[n - 3:] = b"\x00\x00\x00"
         else:
             i = rng.randint(n - 3, n - 1)
             g[i] ^= 1 << rng.randint(0, 7)
